@@ -129,10 +129,12 @@ func (w *wgen) simple() string {
 		// (command substitution of something that can fail is left out: known finding
 		// errexit_inherited_by_command_substitution)
 		return w.pick(wvars) + "=$(echo " + w.val() + ")"
-	case k < 57:
+	case k < 55:
 		return "arr=(" + w.val() + " q " + w.val() + `); echo "${arr[1]}" "${#arr[@]}"`
-	case k < 59:
+	case k < 57:
 		return `arr+=(` + w.val() + `); for e in "${arr[@]}"; do echo "<$e>"; done`
+	case k < 59:
+		return w.sparse()
 	case k < 61:
 		// an element unset inside a subshell / command substitution must not touch the parent's array
 		switch w.r.IntN(3) {
@@ -177,6 +179,42 @@ func (w *wgen) simple() string {
 	default:
 		return "echo \"$?\" \"$#\""
 	}
+}
+
+// sparse: an indexed array with holes (explicit indices, unset of elements that are not the last,
+// appends after a hole), read with negative subscripts, written through a negative subscript and
+// read back, listed with its indices.
+func (w *wgen) sparse() string {
+	var sb strings.Builder
+	sb.WriteString("{ ") // one command, also as the operand of && ||
+	switch w.r.IntN(3) {
+	case 0:
+		sb.WriteString("q=(1 2 3 4)")
+	case 1:
+		sb.WriteString("q=([0]=a [3]=b [7]=c)")
+	default:
+		sb.WriteString("q=(a b c d e)")
+	}
+	for n := 1 + w.r.IntN(3); n > 0; n-- {
+		switch w.r.IntN(6) {
+		case 0, 1:
+			fmt.Fprintf(&sb, "; unset \"q[%d]\"", w.r.IntN(2)) // never the last element: the reads below stay in range
+		case 2:
+			sb.WriteString("; q+=(" + w.pick([]string{"5", "y z", "w"}) + ")")
+		case 3:
+			fmt.Fprintf(&sb, "; q[%d]=%s", 2+w.r.IntN(8), w.pick([]string{"m", "n", "9"}))
+		case 4:
+			fmt.Fprintf(&sb, "; q[-%d]=%s", 1+w.r.IntN(2), w.pick([]string{"W", "V"}))
+		default:
+			sb.WriteString("; unset \"q[-2]\"")
+		}
+	}
+	sb.WriteString("; echo")
+	for n := 2 + w.r.IntN(3); n > 0; n-- {
+		fmt.Fprintf(&sb, " \"${q[-%d]}|\"", 1+w.r.IntN(3))
+	}
+	sb.WriteString(` "${#q[@]}" "${!q[@]}" "${q[@]}"; }`)
+	return sb.String()
 }
 
 func (w *wgen) list(depth, max int) string {
